@@ -104,6 +104,10 @@ class St:
         e = self.store[ref.id]
         if e.kind == "dict" and e.owner is not None:
             e.items = self.store[e.owner.id].attrs  # obj.__dict__ is a live view: reads and writes go to the object
+        elif e.__class__ is DictViewE:
+            # d.keys() / d.values() / d.items() are live views of d: recomputed from the dictionary at every access
+            d = self.get(e.dref).items
+            e.items = list(d) if e.which == "keys" else (list(d.values()) if e.which == "values" else list(d.items()))
         return e
 
     @property
@@ -1318,8 +1322,9 @@ class Interp:
                     from .loops import lazy_check, _same_items
 
                     lazy_check(st2, watch)
-                    if isinstance(it, Ref) and st2.get(it).kind == "list" and not _same_items(st2.get(it).items, items):
-                        raise Unsupported("a list is changed by the comprehension that iterates it")
+                    if isinstance(it, Ref) and st2.get(it).kind in ("list", "dict", "set") and not _same_items(list(st2.get(it).items), items):
+                        # (a dictionary / set that changes size: RuntimeError in CPython; a view whose values change: read live)
+                        raise Unsupported("a list / dictionary / set is changed by the comprehension that iterates it")
                 if k == len(items):
                     yield st2, None
                     return
